@@ -16,6 +16,7 @@ mod rng;
 fn main() {
   let args: Vec<String> = std::env::args().collect();
   let mode = args.get(1).map(|s| s.as_str()).unwrap_or("");
+  if let Ok(c) = std::env::var("TWIN_CRIT") { codec::set_crit(&c); }
   let code = match mode {
     "search-enc" => codec::search_enc(&args[2..], false),
     "search-lines" => codec::search_enc(&args[2..], true),
